@@ -7,11 +7,32 @@ import QlibcModel.Str.ReplLemmas
 namespace Qlibc.Str
 open Qlibc
 
-/-- the loop ends with a block that holds the whole text and its terminator -/
-theorem dynVsprintf_spec (out : Bytes) : ∀ (fuel size : Nat) (allocs : List Nat), 1 ≤ size →
-    out.length < size * 2 ^ fuel →
+theorem vsnStore_fit (out : Bytes) (size : Nat) (h : out.length < size) :
+    vsnStore (List.replicate size fillByte) out size
+      = .ok (out ++ 0 :: List.replicate (size - (out.length + 1)) fillByte) := by
+  unfold vsnStore
+  have hz : ¬ size = 0 := by omega
+  have htake : out.take (size - 1) = out := List.take_of_length_le (by omega)
+  have hl : (out ++ [0]).length ≤ (List.replicate size fillByte).length := by simp; omega
+  simp only [hz, if_false, htake, hl, if_true]
+  simp [List.drop_replicate]
+
+theorem vsnStore_ok (out : Bytes) (size : Nat) :
+    ∃ b, vsnStore (List.replicate size fillByte) out size = .ok b := by
+  unfold vsnStore
+  by_cases hz : size = 0
+  · exact ⟨List.replicate size fillByte, by simp [hz]⟩
+  · have hl : (out.take (size - 1) ++ [0]).length ≤ (List.replicate size fillByte).length := by
+      simp [List.length_take]; omega
+    simp only [hz, if_false, hl, if_true]
+    exact ⟨_, rfl⟩
+
+/-- for every start size ≥ 1 and every growth factor ≥ 2 the loop ends, with a block that holds
+    the whole text and its terminator -/
+theorem dynVsprintf_spec (factor : Nat) (hfac : 2 ≤ factor) (out : Bytes) :
+    ∀ (fuel size : Nat) (allocs : List Nat), 1 ≤ size → out.length < size * 2 ^ fuel →
     ∃ (sz : Nat) (al : List Nat), out.length < sz ∧
-      dynVsprintf out (fuel + 1) size allocs
+      dynVsprintf factor out (fuel + 1) size allocs
         = .ok (out ++ 0 :: List.replicate (sz - (out.length + 1)) fillByte, al) := by
   intro fuel
   induction fuel with
@@ -19,74 +40,100 @@ theorem dynVsprintf_spec (out : Bytes) : ∀ (fuel size : Nat) (allocs : List Na
     intro size allocs h1 hlt
     simp only [Nat.pow_zero, Nat.mul_one] at hlt
     refine ⟨size, allocs ++ [size], hlt, ?_⟩
-    rw [dynVsprintf]
-    have htake : out.take (size - 1) = out := List.take_of_length_le (by omega)
-    rw [htake, wrN_front _ _ (by simp; omega)]
-    simp [hlt, List.drop_replicate]
+    rw [dynVsprintf, vsnStore_fit out size hlt]
+    simp [hlt]
   | succ k ih =>
     intro size allocs h1 hlt
     by_cases hfit : out.length < size
     · refine ⟨size, allocs ++ [size], hfit, ?_⟩
-      rw [dynVsprintf]
-      have htake : out.take (size - 1) = out := List.take_of_length_le (by omega)
-      rw [htake, wrN_front _ _ (by simp; omega)]
-      simp [hfit, List.drop_replicate]
-    · obtain ⟨sz, al, hsz, hrun⟩ := ih (size * 2) (allocs ++ [size]) (by omega)
-        (by rw [Nat.pow_succ] at hlt; rw [Nat.mul_assoc, Nat.mul_comm 2]; exact hlt)
+      rw [dynVsprintf, vsnStore_fit out size hfit]
+      simp [hfit]
+    · have hge : size * 2 ≤ size * factor := Nat.mul_le_mul_left size hfac
+      have hpow : size * 2 * 2 ^ k ≤ size * factor * 2 ^ k := Nat.mul_le_mul_right _ hge
+      obtain ⟨sz, al, hsz, hrun⟩ := ih (size * factor) (allocs ++ [size])
+        (by have : 1 ≤ size * 2 := by omega
+            omega)
+        (by rw [Nat.pow_succ] at hlt
+            have : size * (2 ^ k * 2) = size * 2 * 2 ^ k := by
+              rw [Nat.mul_comm (2 ^ k) 2, Nat.mul_assoc]
+            omega)
       refine ⟨sz, al, hsz, ?_⟩
-      rw [dynVsprintf]
-      have hl : (out.take (size - 1) ++ [0]).length ≤ (List.replicate size fillByte).length := by
-        simp [List.length_take]; omega
-      rw [wrN_front _ _ hl]
+      obtain ⟨b, hb⟩ := vsnStore_ok out size
+      rw [dynVsprintf, hb]
       simp only [bind_ok, hfit, if_false]
       exact hrun
 
-theorem dynVsprintf_top (out : Bytes) :
+/-- with a start size of 0 (e.g. `strlen(format) * 2` for the empty format) no block ever fits and
+    the size never grows: the loop does not end, whatever the fuel -/
+theorem dynVsprintf_zero (factor : Nat) (out : Bytes) : ∀ (fuel : Nat) (allocs : List Nat),
+    dynVsprintf factor out fuel 0 allocs = .error .outOfFuel := by
+  intro fuel
+  induction fuel with
+  | zero => intro allocs; rfl
+  | succ k ih =>
+    intro allocs
+    rw [dynVsprintf]
+    simp [vsnStore, ih]
+
+theorem dynVsprintf_top (start factor : Nat) (hs : 1 ≤ start) (hfac : 2 ≤ factor) (out : Bytes) :
     ∃ (sz : Nat) (al : List Nat), out.length < sz ∧
-      dynVsprintf out (out.length + 1) 1024 []
+      dynVsprintf factor out (out.length + 1) start []
         = .ok (out ++ 0 :: List.replicate (sz - (out.length + 1)) fillByte, al) := by
-  apply dynVsprintf_spec out out.length 1024 [] (by omega)
+  apply dynVsprintf_spec factor hfac out out.length start [] hs
   have := @Nat.lt_two_pow_self out.length
-  have h2 : 2 ^ out.length ≤ 1024 * 2 ^ out.length := Nat.le_mul_of_pos_left _ (by omega)
+  have h2 : 2 ^ out.length ≤ start * 2 ^ out.length := Nat.le_mul_of_pos_left _ (by omega)
   omega
 
-theorem qstrdupf_correct (out : Bytes) (ho : NulFree out) :
-    ∃ al, qstrdupf out = .ok (out ++ [0], al) := by
-  obtain ⟨sz, al, hsz, hrun⟩ := dynVsprintf_top out
+theorem strlenAt_zero (s rest : Bytes) (hs : NulFree s) : strlenAt (s ++ 0 :: rest) 0 = .ok s.length := by
+  unfold strlenAt
+  have : ((s ++ 0 :: rest).drop 0).takeWhile (· != 0) = s := cstr_append_nul hs rest
+  rw [this]
+  simp
+
+theorem qstrdupf_correct (start factor : Nat) (hs : 1 ≤ start) (hfac : 2 ≤ factor) (out : Bytes)
+    (ho : NulFree out) :
+    ∃ al, qstrdupfG start factor out = .ok (out ++ [0], al) := by
+  obtain ⟨sz, al, hsz, hrun⟩ := dynVsprintf_top start factor hs hfac out
   refine ⟨al, ?_⟩
-  unfold qstrdupf
+  unfold qstrdupfG
   rw [hrun]
   simp only [bind_ok]
-  rw [nulPos_zero out _ ho]
-  simp only [bind_ok]
-  rw [rdN_at (out ++ 0 :: List.replicate (sz - (out.length + 1)) fillByte) [] (out ++ [0])
-    (List.replicate (sz - (out.length + 1)) fillByte) 0 (out.length + 1) (by simp) rfl (by simp)]
-  rfl
+  rw [strlenAt_zero out _ ho]
+  simp only [bind_ok, pure_ok]
+  have e : out ++ 0 :: List.replicate (sz - (out.length + 1)) fillByte
+      = (out ++ [0]) ++ List.replicate (sz - (out.length + 1)) fillByte := by simp
+  have l : out.length + 1 = (out ++ [0]).length := by simp
+  rw [e, l, List.take_left]
 
-theorem qstrcatf_correct (d drest out : Bytes) (hd : NulFree d) (ho : NulFree out) :
-    ∃ al, qstrcatf (d ++ 0 :: drest) out
+theorem qstrcatf_correct (start factor : Nat) (hs : 1 ≤ start) (hfac : 2 ≤ factor)
+    (d drest out : Bytes) (hd : NulFree d) (ho : NulFree out) :
+    ∃ al, qstrcatfG start factor (d ++ 0 :: drest) out
       = if out.length ≤ drest.length
         then .ok (d ++ out ++ 0 :: drest.drop out.length, al)
         else .error .oob := by
-  obtain ⟨sz, al, hsz, hrun⟩ := dynVsprintf_top out
+  obtain ⟨sz, al, hsz, hrun⟩ := dynVsprintf_top start factor hs hfac out
   refine ⟨al, ?_⟩
-  unfold qstrcatf
+  unfold qstrcatfG
   rw [hrun]
   simp only [bind_ok]
-  rw [nulPos_zero d drest hd, nulPos_zero out _ ho]
+  rw [strlenAt_zero d drest hd, strlenAt_zero out _ ho]
   simp only [bind_ok]
-  rw [rdN_at (out ++ 0 :: List.replicate (sz - (out.length + 1)) fillByte) [] (out ++ [0])
-    (List.replicate (sz - (out.length + 1)) fillByte) 0 (out.length + 1) (by simp) rfl (by simp)]
-  simp only [bind_ok]
+  have e : out ++ 0 :: List.replicate (sz - (out.length + 1)) fillByte
+      = (out ++ [0]) ++ List.replicate (sz - (out.length + 1)) fillByte := by simp
+  have l : out.length + 1 = (out ++ [0]).length := by simp
+  rw [e, l, List.take_left]
+  unfold storeAt
   by_cases hfit : out.length ≤ drest.length
-  · simp only [hfit, if_true]
-    have e : d ++ 0 :: drest = d ++ (0 :: drest).take (out.length + 1) ++ (0 :: drest).drop (out.length + 1) := by
-      rw [List.append_assoc, List.take_append_drop]
-    rw [wrN_at (d ++ 0 :: drest) d ((0 :: drest).take (out.length + 1)) ((0 :: drest).drop (out.length + 1))
-      (out ++ [0]) d.length e rfl (by simp [List.length_take]; omega)]
-    simp
-  · simp only [hfit, if_false]
-    rw [wrN_oob (out ++ [0]) (d ++ 0 :: drest) d.length (by simp) (by simp; omega)]
+  · have h1 : d.length + (out ++ [0]).length ≤ (d ++ 0 :: drest).length := by simp; omega
+    simp only [hfit, h1, if_true, bind_ok, pure_ok]
+    congr 2
+    have t1 : (d ++ 0 :: drest).take d.length = d := List.take_left
+    have t2 : (d ++ 0 :: drest).drop (d.length + (out ++ [0]).length) = drest.drop out.length := by
+      rw [← List.drop_drop, List.drop_left]
+      simp
+    rw [t1, t2]; simp
+  · have h1 : ¬ d.length + (out ++ [0]).length ≤ (d ++ 0 :: drest).length := by simp; omega
+    simp only [hfit, h1, if_false]
     rfl
 
 end Qlibc.Str
